@@ -177,7 +177,7 @@ func (rn *runner) blockCase(dt time.Duration, extra [][]byte, tag string) blockR
 	info := map[string]any{"kind": "block", "tag": tag, "height": height, "time": now.Format(time.RFC3339Nano), "dt_ns": int64(dt),
 		"txs": kinds, "tx_results": res.Txs, "extra_entries": len(extra), "result": class, "err": cut(res.Err, 300), "wall_ms": res.Wall.Milliseconds(),
 		"da_items": da.nItems, "da_due": da.due, "da_near": da.near, "gauges": li.nGauges, "zero_liq_gauge_pools": li.zeroLiq,
-		"mint_fires": mint.fires, "sc_due": sc.due, "sc_same_second_later": sc.sameSec, "sc_released": sc.released.String(), "sc_owed": sc.owed.String(), "sc_blocked_recipients": sc.blocked,
+		"mint_fires": mint.fires, "sc_due": sc.due, "sc_same_second_later": sc.sameSec, "sc_released": sc.released.String(), "sc_owed": sc.owed.String(), "sc_slash_loss": sc.slashLoss.String(), "sc_blocked_recipients": sc.blocked,
 		"fee_collector_bond": liBal.String(), "seed": rn.seed}
 	rn.add(fmt.Sprintf("(CBlock %s %s)", bin, obs), info)
 	st := rn.st
